@@ -830,6 +830,7 @@ type c05Runner struct {
 	cur    *c05RT
 	first  map[int]string // case index -> outcome signature of the first pass
 	passNo int
+	primed bool
 }
 
 type c05RT struct {
@@ -1031,6 +1032,78 @@ func (rn *c05Runner) runTwice(c *c05Case) (bads []*c05Bad, results []c05Result, 
 	return
 }
 
+// primeConf loads a configuration once, as a service does at start-up: from then on the process
+// has used conf.Load* (and whatever options it installs) before any request is parsed.
+func (rn *c05Runner) primeConf() {
+	type cfg struct {
+		Name string `json:"name"`
+		Port int    `json:"listen_port,default=8080"`
+	}
+	var v cfg
+	if err := conf.LoadFromJsonBytes([]byte(`{"name":"svc","listen_port":9}`), &v); err != nil || v.Port != 9 {
+		rn.rep.Count("prime.conf.unexpected", 1)
+	}
+	var w cfg
+	if err := conf.LoadFromYamlBytes([]byte("name: svc\nlisten_port: 9\n"), &w); err != nil || w.Port != 9 {
+		rn.rep.Count("prime.conf.unexpected", 1)
+	}
+	rn.rep.Count("prime.conf", 1)
+}
+
+// runHistory: a config load first, then every option-less API on a field whose key is spelt in
+// snake_case / Upper-initial / mixed / lowerCamel.  Same allowed set as for a single call.
+func (rn *c05Runner) runHistory(c *c05Case) (bads []*c05Bad, results []c05Result, n int) {
+	tJSON, err := c05StructType("json", c.Fields, false)
+	if err != nil {
+		return []*c05Bad{{"infra", err.Error()}}, nil, 0
+	}
+	tKey, err := c05StructType("key", c.Fields, false)
+	if err != nil {
+		return []*c05Bad{{"infra", err.Error()}}, nil, 0
+	}
+	js := renderJSON(c.Fields, "exact")
+	ys := renderYAML(c.Fields, "")
+	if ys == "" {
+		ys = "{}\n"
+	}
+	add := func(api, tk string, r c05Result, input string, after bool) {
+		n++
+		results = append(results, r)
+		rn.rep.Count("call."+api+"."+r.class(), 1)
+		if b := judge(c, api, tk, r, input); b != nil {
+			if after && !strings.HasPrefix(b.Key, "C05:panic") {
+				b.Key = "C05:after-conf:" + strings.TrimPrefix(b.Key, "C05:")
+				b.Msg = "after a conf.Load* in the same process: " + b.Msg
+			}
+			bads = append(bads, b)
+		}
+	}
+	// history: the config loads (judged like any other call)
+	rn.primeConf()
+	add("conf.LoadFromJsonBytes[exact]", "json", c05Call(tJSON, func(v any) error { return conf.LoadFromJsonBytes([]byte(js), v) }), js, false)
+	if c.Yaml {
+		add("conf.LoadFromYamlBytes", "json", c05Call(tJSON, func(v any) error { return conf.LoadFromYamlBytes([]byte(ys), v) }), strconv.Quote(ys), false)
+	}
+	// then the option-less calls
+	rJSON := c05Call(tJSON, func(v any) error { return mapping.UnmarshalJsonBytes([]byte(js), v) })
+	add("mapping.UnmarshalJsonBytes", "json", rJSON, js, true)
+	add("mapping.UnmarshalKey", "key", c05Call(tKey, func(v any) error { return mapping.UnmarshalKey(renderMap(c.Fields), v) }), js, true)
+	if c.Yaml {
+		rYAML := c05Call(tJSON, func(v any) error { return mapping.UnmarshalYamlBytes([]byte(ys), v) })
+		add("mapping.UnmarshalYamlBytes", "json", rYAML, strconv.Quote(ys), true)
+		if !c.Out.Any && rJSON.class() == "val" && rYAML.class() == "val" && !sameStruct(rJSON, rYAML) {
+			bads = append(bads, &c05Bad{"C05:after-conf:json-yaml-differ", fmt.Sprintf("after a conf.Load*: the same content into %s: JSON %s gives %s, YAML %q gives %s",
+				describe(c.Fields), js, render(rJSON.Val.Elem()), ys, render(rYAML.Val.Elem()))})
+		}
+	}
+	add("httpx.Parse[json body]", "json", c05Call(tJSON, func(v any) error {
+		r := httptest.NewRequest(http.MethodPost, "/x", strings.NewReader(js))
+		r.Header.Set("Content-Type", "application/json")
+		return httpx.Parse(r, v)
+	}), js, true)
+	return
+}
+
 func (rn *c05Runner) runText(c *c05Case) (bads []*c05Bad, results []c05Result, n int) {
 	vals := renderText(c.Fields)
 	add := func(api string, r c05Result, input string, v string) {
@@ -1130,6 +1203,10 @@ func (rn *c05Runner) runRoundTrip(c *c05Case) (bads []*c05Bad, results []c05Resu
 		if f.Part == "path" {
 			pathName = f.Name.Exact
 		}
+	}
+	if !rn.primed { // the server process has loaded its configuration before it parses requests
+		rn.primeConf()
+		rn.primed = true
 	}
 	rn.cur = &c05RT{typ: t}
 	var resp *http.Response
@@ -1306,6 +1383,8 @@ func (rn *c05Runner) runCase(kc kit.Case) kit.Verdict {
 		bads, results, n = rn.runRoundTrip(&c)
 	case c.Family == "twice":
 		bads, results, n = rn.runTwice(&c)
+	case c.Family == "history":
+		bads, results, n = rn.runHistory(&c)
 	case c.Src == "text":
 		bads, results, n = rn.runText(&c)
 	default:
